@@ -4,7 +4,7 @@ aid): renamed + annotated locals; with `noops` additionally a `pass` after every
 logic-shape rewrite (if/else inverted, constant comparisons mirrored)."""
 import os, shutil, sys
 sys.path.insert(0, os.path.dirname(os.path.dirname(os.path.abspath(__file__))))
-from upsa.alpha import alpha_rename, flatten_else, hoist_returns, hoist_tests, interleave_noops, reshape_logic
+from upsa.alpha import alpha_rename, flatten_else, hoist_returns, hoist_tests, interleave_noops, reshape_logic, split_conjunctions
 dst = sys.argv[1]
 noops = len(sys.argv) > 2 and sys.argv[2] == 'noops'
 shape = len(sys.argv) > 2 and sys.argv[2] == 'shape'
@@ -20,7 +20,7 @@ for root, _d, files in os.walk(os.path.join(dst, "unified_planning")):
             s = open(p).read()
             t = reshape_logic(s) if shape else alpha_rename(s)[0]
             if full:
-                t = interleave_noops(hoist_tests(hoist_returns(flatten_else(reshape_logic(t)))))
+                t = interleave_noops(hoist_tests(hoist_returns(flatten_else(reshape_logic(split_conjunctions(t))))))
             if noops:
                 t = interleave_noops(t)
             compile(t, p, "exec")
